@@ -918,3 +918,31 @@ class CopyCache(Component):
             cur = state.get(ev.loc)
             if isinstance(cur, tuple) and cur[0] == "stale" and not _is_none_test_read(ev, ev.loc[1]):
                 self.violations.append((ev, ev.loc[1], cur[1], cur[2]))
+
+
+class HullProvenance(Component):
+    """CMB-1: `_combine_simplices` groups the hull's triangles into facets by comparing their plane equations with a tolerance
+    of a few ulps.  That is sound only for the equations qhull itself returned (it reports bit-identical equations for the
+    simplices of one merged facet).  Equations recomputed from the vertices (`_find_simplex_equations`, after a rotation, a
+    translation or a re-sort) agree only to rounding, so regrouping them splits facets.  Typestate of
+    `_simplex_equations`: 'hull' (last rebound from ConvexHull.equations) / 'recomputed' (last rebound from anything else)."""
+    name = "hullprov"
+
+    def __init__(self):
+        self.violations = []
+
+    def init(self, interp):
+        return "unknown"
+
+    def join(self, a, b):
+        if a == b:
+            return a
+        return "recomputed" if "recomputed" in (a, b) else "unknown"
+
+    def on_event(self, interp, st, ev):
+        if ev.type == "write" and ev.loc[1] == "_simplex_equations" and ev.loc[0] == "self" and ev.mode == "rebind":
+            rhs = ev.rhs
+            st.comp[self.name] = "hull" if (rhs is not None and "hull" in rhs.tags) else "recomputed"
+        elif ev.type == "enter" and not ev.entry and ev.callee.name == "_combine_simplices":
+            if st.comp[self.name] == "recomputed":
+                self.violations.append(ev)
